@@ -366,6 +366,24 @@ void decode_logs(Rec &R) {
 
 } // namespace
 
+// ---- where a batch's log record ends (the generator aligns some records with 32 KiB block boundaries)
+static size_t varint_len(uint64_t v) { size_t n = 1; while (v >= 128) { v >>= 7; n++; } return n; }
+static size_t batch_payload(const std::vector<Upd> &ups) {
+  size_t n = 12;
+  for (auto &u : ups) { n += 1 + varint_len(u.key.size()) + u.key.size(); if (!u.del) n += varint_len(u.len) + u.len; }
+  return n;
+}
+static size_t log_advance(size_t pos, size_t payload) {
+  size_t left = payload;
+  do {
+    size_t leftover = 32768 - pos % 32768;
+    if (leftover < 7) { pos += leftover; leftover = 32768; }
+    size_t frag = std::min(left, leftover - 7);
+    pos += 7 + frag; left -= frag;
+  } while (left > 0);
+  return pos;
+}
+
 // ---------------------------------------------------------------------------
 Plan gen_crash(uint64_t seed, const string &prop) {
   Rng r(mix64(seed, 0xC4A54));
@@ -391,9 +409,14 @@ Plan gen_crash(uint64_t seed, const string &prop) {
   int nkeys = (int)r.range(3, 14);
   uint64_t tag = 1;
   std::vector<int> nmark(nthreads, 0);
+  // aligned flavour (single writer): while the position in the first log is still predictable, one batch is sized so
+  // that its record ends exactly on, or 1/6/7/8 bytes before, a 32 KiB block boundary
+  bool aligned = nthreads == 1 && r.chance(0.3);
+  size_t logpos = 0; bool pos_known = true; int align_at = aligned ? (int)r.below(4) : -1, nwrites = 0;
   for (int i = 0; i < nops; i++) {
     Op o; o.tid = (int)r.below(nthreads);
     int c = (int)r.below(100);
+    if (aligned && pos_known && nwrites <= align_at) c = 0; // writes first
     if (c13 && c >= 60 && c < 74) c = 84 + (int)r.below(9); // more manual compactions
     if (c < 74) {
       o.kind = O_WRITE;
@@ -408,6 +431,20 @@ Plan gen_crash(uint64_t seed, const string &prop) {
         o.ups.push_back(u);
       }
       o.sync = r.chance(sync_rate);
+      if (aligned && pos_known) {
+        if (nwrites == align_at) {
+          static const size_t tails[] = {0, 0, 0, 1, 6, 7, 8};
+          size_t t = r.pick(tails), blocks = r.chance(0.75) ? 1 : 2;
+          Upd u; u.key = "w0/align"; u.tag = tag++; u.fill = (int)r.below(2); u.len = 0;
+          o.ups.push_back(u);
+          o.sync = 0;
+          size_t want = (logpos / 32768 + blocks) * 32768 - t;
+          for (size_t L = 0; L < 70000; L++) { o.ups.back().len = (uint32_t)L; size_t e = log_advance(logpos, batch_payload(o.ups)); if (e == want) { p.seti("aligned_record_end", (long)e); break; } if (e > want) break; }
+        }
+        logpos = log_advance(logpos, batch_payload(o.ups));
+        nwrites++;
+        if (logpos > 40000 && nwrites <= align_at) pos_known = false; // too close to the memtable switch to predict
+      }
     } else if (c < 84) o.kind = O_FLUSH, o.tid = 0;
     else if (c < 91) { o.kind = O_COMPACT_RANGE; o.a = (int)r.below(3); o.tid = 0; }
     else if (c < 93) { o.kind = O_COMPACT; o.tid = 0; }
